@@ -95,9 +95,8 @@ static void clear_dir(const std::string &dir) {
   closedir(d);
 }
 
-static void child(const std::string &dir, unsigned max, const std::string &script) {
+static void child(const std::string &dir, unsigned max, const std::string &script, uint64_t ver = 0) {
   RestartManager *m = new RestartManager(dir, 0., max, 1.e9, "");
-  uint64_t ver = 0;
   CMI_EV("\"e\":\"procstart\"");
   for (char c : script) {
     if (c == 'p') {
@@ -148,9 +147,10 @@ int main(int argc, char **argv) {
       continue;
     std::istringstream is(line);
     unsigned max;
-    std::string script, crash;
+    std::string script, crash, post;
     long crash_at;
     is >> max >> script >> crash >> crash_at;
+    is >> post; // optional: dumps taken by a NEW process started in the same folder after the crash (recovery)
     const std::string dir = work + "/rot";
     mkdir(dir.c_str(), 0755);
     clear_dir(dir);
@@ -190,6 +190,36 @@ int main(int argc, char **argv) {
     fprintf(f, "{\"e\":\"end\",\"how\":\"%s\",\"code\":%i,\"files\":%s}\n", how, code,
             list_dir(dir).c_str());
     fclose(f);
+    if (!post.empty() && std::string(how) == "crashed") {
+      // recovery: a new process in the folder the crash left behind
+      uint64_t ver0 = 0;
+      for (char c : script)
+        ver0 += (c == 'd');
+      fflush(nullptr);
+      pid_t pid2 = fork();
+      if (pid2 == 0) {
+        setenv("CMI_VERIF_TRACE", out.c_str(), 1);
+        unsetenv("CMI_VERIF_CRASH");
+        int devnull = open("/dev/null", O_WRONLY);
+        dup2(devnull, 2);
+        child(dir, max, post, ver0);
+        exit(0);
+      }
+      int st2 = 0;
+      waitpid(pid2, &st2, 0);
+      const char *how2 = "exit";
+      int code2 = 0;
+      if (WIFEXITED(st2)) {
+        code2 = WEXITSTATUS(st2);
+        how2 = code2 == 0 ? "exit" : "failed";
+      } else if (WIFSIGNALED(st2)) {
+        code2 = WTERMSIG(st2);
+        how2 = "abort";
+      }
+      FILE *f2 = fopen(out.c_str(), "a");
+      fprintf(f2, "{\"e\":\"end\",\"how\":\"%s\",\"code\":%i,\"files\":%s}\n", how2, code2, list_dir(dir).c_str());
+      fclose(f2);
+    }
     ++idx;
   }
   return 0;
